@@ -558,14 +558,118 @@ pub fn run_case(c: &C12Case, n: u64) -> Verdict {
     Verdict::Pass { nontrivial, classes }
 }
 
+/// `group --cache` whose cache directory lives on a file system that runs full while hashes are
+/// being stored: storing is an optimisation, so the result must still be the uncached one.
+#[derive(Clone, Debug, Serialize, Deserialize)]
+pub struct CacheFullCase {
+    /// number of small files (sled buffers writes; the first failing store was observed after
+    /// about 1800 entries, independent of the size of the file system)
+    pub nfiles: u16,
+    /// size of the tmpfs that holds XDG_CACHE_HOME, in KiB
+    pub fs_kib: u16,
+    /// files i and j have equal content iff i / class_size == j / class_size
+    pub class_size: u8,
+    pub hash_fn: u8,
+}
+
+fn cache_full_strategy() -> BoxedStrategy<CacheFullCase> {
+    (1900u16..3600, prop_oneof![Just(8u16), Just(16), Just(64), Just(128), Just(256), Just(384)], 1u8..5, 0u8..3)
+        .prop_map(|(nfiles, fs_kib, class_size, hash_fn)| CacheFullCase { nfiles, fs_kib, class_size, hash_fn })
+        .boxed()
+}
+
+pub fn run_cache_full(c: &CacheFullCase, n: u64) -> Verdict {
+    let cd = CaseDir::new("c12f", n, Fs::Tmpfs);
+    let dir = cd.tree().join("r");
+    std::fs::create_dir_all(&dir).unwrap();
+    for i in 0..c.nfiles as usize {
+        let class = i / c.class_size.max(1) as usize;
+        let _ = std::fs::write(dir.join(format!("f{:05}", i)), format!("content of class {} ", class).repeat(1 + class % 4));
+    }
+    let small = cd.base.join("smallcache");
+    let guard = {
+        let _ = std::fs::create_dir_all(&small);
+        let ok = std::process::Command::new("mount")
+            .args(["-t", "tmpfs", "-o", &format!("size={}k", c.fs_kib), "tmpfs"])
+            .arg(&small)
+            .stdout(std::process::Stdio::null())
+            .stderr(std::process::Stdio::null())
+            .status()
+            .map(|s| s.success())
+            .unwrap_or(false);
+        if !ok {
+            return Verdict::Inconclusive("cannot mount a small tmpfs".into());
+        }
+        TwinMounts(vec![small.clone()])
+    };
+    let roots = vec![std::ffi::OsString::from("r")];
+    let mut o = GOpts::default();
+    o.hash_fn = c.hash_fn;
+    let uncached = run_group(&cd, &o, &roots, "default", &[]);
+    o.cache = true;
+    let envs = vec![("XDG_CACHE_HOME".to_string(), small.to_string_lossy().to_string())];
+    let first = run_group_env(&cd, &o, &roots, "default", &[], false, &envs);
+    let second = run_group_env(&cd, &o, &roots, "default", &[], false, &envs);
+    drop(guard);
+    for r in [&uncached, &first, &second] {
+        if r.out.timed_out {
+            return Verdict::Inconclusive("timeout".into());
+        }
+        if r.out.crashed() {
+            return Verdict::fail("crash", format!("{}\n{}", r.cmdline, r.out.brief()));
+        }
+    }
+    if !uncached.out.ok() {
+        return Verdict::Discard("group-rejected".into());
+    }
+    let store_failures = String::from_utf8_lossy(&first.out.stderr).matches("Failed to store").count();
+    let sig = vec!["cache-file-system-full".to_string()];
+    let b0 = text_body(&uncached.out.stdout);
+    for (name, r) in [("first cached run", &first), ("second cached run", &second)] {
+        // (a run that refuses to start because it cannot open its cache reports nothing wrong)
+        if !r.out.ok() {
+            continue;
+        }
+        let b = text_body(&r.out.stdout);
+        if b != b0 {
+            let count = |x: &[u8]| x.split(|c| *c == b'\n').filter(|l| !l.is_empty() && !l.starts_with(b" ")).count();
+            return Verdict::Fail {
+                clause: "cache-changes-result".into(),
+                detail: format!(
+                    "XDG_CACHE_HOME on a {} KiB tmpfs, {} small files in classes of {}: the {} ({}) reports {} groups, the uncached run {}; {} \"Failed to store\" warnings\n{}",
+                    c.fs_kib,
+                    c.nfiles,
+                    c.class_size,
+                    name,
+                    r.cmdline,
+                    count(&b),
+                    count(&b0),
+                    store_failures,
+                    r.out.brief()
+                ),
+                sig,
+            };
+        }
+    }
+    let mut classes = sig.clone();
+    if store_failures > 0 {
+        classes.push("store-failures-observed".into());
+    }
+    if !first.out.ok() {
+        classes.push("cached-run-refused".into());
+    }
+    Verdict::Pass { nontrivial: store_failures > 0 && first.out.ok(), classes }
+}
+
 pub fn check(tier: Tier) -> i32 {
     let ctx = Ctx::new("C12", tier);
     replay_corpus::<C12Case, _>(&ctx, run_case);
     drive(&ctx, "main", tier.pick(500, 8000), case_strategy, run_case);
+    drive(&ctx, "cache-full", tier.pick(32, 400), cache_full_strategy, run_cache_full);
     cleanup_process_scratch();
     ctx.finish(
         "exploration",
-        "proptest-generated histories of 1-6 steps over 3-7 files of 5-140 KB that share long prefixes and suffixes (two content classes, single-byte differences at stage-boundary offsets): each step applies 0-3 edits (create, in-place rewrite of the same length with a newer or with an older mtime, make identical to another file, append/truncate with or without keeping the mtime, rename, delete+recreate under the same name - on ext4 the inode is usually reused, counted -, hard link, SIGKILL of a running `group --cache` after 1-29 ms, an in-place same-length rewrite applied while a `group --cache --threads 1` run is blocked by the interposer at its k-th read-side libc call on a tree file (k drawn, after a recording run on a copy of the cache, from the calls that touch the file to be rewritten, or one time in four from all calls), creation of the key file without which the `needkey` transform fails after partial output) and then runs `group` uncached, cached (cold for this step) and cached again (warm), all with the same options; options (hash fn, transform - also the same program with other arguments -, max-prefix/suffix, pinned device) change on some steps. Every content change gets a fresh mtime (next value of a logical clock with 1 ms steps, or for the 'older' rewrites a fresh value 1 ms below every earlier one): the mtime always changes, which is the premise of the property. In 15 % of the histories the scanned directory holds two freshly mounted tmpfs file systems whose files were created in the same order (equal inode numbers, counted) with equal lengths and mtimes but different bytes. 4 % of the histories start with the (sled-corrupted) hash database a SIGKILLed run left behind (a saved fixture). Oracle (model = the uncached tool): report bodies incl. hashes and statistics must be byte-identical. Non-trivial = a same-length in-place rewrite or an inode-reusing recreate after a cached run, followed by a run with the same hash function.",
+        "proptest-generated histories of 1-6 steps over 3-7 files of 5-140 KB that share long prefixes and suffixes (two content classes, single-byte differences at stage-boundary offsets): each step applies 0-3 edits (create, in-place rewrite of the same length with a newer or with an older mtime, make identical to another file, append/truncate with or without keeping the mtime, rename, delete+recreate under the same name - on ext4 the inode is usually reused, counted -, hard link, SIGKILL of a running `group --cache` after 1-29 ms, an in-place same-length rewrite applied while a `group --cache --threads 1` run is blocked by the interposer at its k-th read-side libc call on a tree file (k drawn, after a recording run on a copy of the cache, from the calls that touch the file to be rewritten, or one time in four from all calls), creation of the key file without which the `needkey` transform fails after partial output) and then runs `group` uncached, cached (cold for this step) and cached again (warm), all with the same options; options (hash fn, transform - also the same program with other arguments -, max-prefix/suffix, pinned device) change on some steps. Every content change gets a fresh mtime (next value of a logical clock with 1 ms steps, or for the 'older' rewrites a fresh value 1 ms below every earlier one): the mtime always changes, which is the premise of the property. In 15 % of the histories the scanned directory holds two freshly mounted tmpfs file systems whose files were created in the same order (equal inode numbers, counted) with equal lengths and mtimes but different bytes. 4 % of the histories start with the (sled-corrupted) hash database a SIGKILLed run left behind (a saved fixture). A second stage puts XDG_CACHE_HOME on a freshly mounted tmpfs of 8-384 KiB and scans 1900-3600 small files in classes of 1-4 (sled buffers its writes: stores start failing with ENOSPC after about 1800 entries), uncached, cached and cached again; non-trivial there = `Failed to store` warnings were printed. Oracle (model = the uncached tool): report bodies incl. hashes and statistics must be byte-identical. Non-trivial = a same-length in-place rewrite or an inode-reusing recreate after a cached run, followed by a run with the same hash function.",
         &["mtimes are set by the harness with millisecond steps", "XDG_CACHE_HOME is private to the history"],
     )
 }
